@@ -109,6 +109,8 @@ def op_to_cmd(op, ident, names):
     src = op.get("pars", [])
     if cls == "Gaussian":      # Gaussian(V, r): only what the merge rule looks at matters (nothing)
         src = src[:1]
+    if cls in CHANNELS and src and isinstance(src[0], dict):
+        return None             # symbolic channel parameter: products of symbols are outside the fragment
     for p in src:
         m = par_to_model(p, names)
         if m is None:
@@ -312,6 +314,14 @@ def gen_spec(rng, n, length, flavour="gaussian", p_sym=0.0, p_measured=0.0, matr
                         _ = flip
                     if len(op["pars"]) > 1 and rng.random() < 0.2:
                         op["pars"][1:] = tail_pars(rng, cls, small)
+                    # plain gate next to a measured-parameter gate of the same family, in both orders
+                    avail = [m for m in measured if m not in op["regs"]]
+                    is_meas = isinstance(op["pars"][0], dict) and "m" in op["pars"][0]
+                    if is_meas and rng.random() < 0.35:
+                        op["pars"][0] = (dict(f="x", k=rng.choice([1, -1, 2, 0.5])) if cls in sym_classes
+                                         else first_par(rng, cls, small))
+                    elif not is_meas and avail and p_measured > 0 and rng.random() < 0.2 and cls not in sym_classes:
+                        op["pars"][0] = dict(m=rng.choice(avail), k=rng.choice([1, 2, 0.5, -1]))
                 if rng.random() < 0.3:
                     op["dagger"] = not prev.get("dagger", False)
                 elif prev.get("dagger"):
